@@ -6,6 +6,8 @@ VERIF = os.path.dirname(HERE)
 
 TECH = "deterministic simulation with fault injection: seeded scheduler over the real server in a synctest bubble on a simulated kernel (simnet), "
 
+RAW = "deterministic simulation with fault injection: the real canary.New and Start() receive loop in a synctest bubble over simulated epoll/AF_PACKET syscalls and /proc tables (simsys), seeded frame scheduler, "
+
 CHECKS = {
  "C04": dict(
    text="Seeded exploration: every generated dialogue (ftp, smtp incl. DATA/BDAT, redis, memcached, telnet, http) is run through the real server on the simulated transport under a scheduler-chosen segmentation / pipelining / idle-gap delivery and under the lock-step baseline; the ordered event lists must be equal and every command's expected event present exactly once in order. Sampling, not proof.",
@@ -43,6 +45,18 @@ CHECKS = {
    text="Seeded exploration of 2-3 (history: up to 20) scripted sessions with distinct client addresses and session-unique tags on one shared service instance (ldap, ftp incl. logged-in sessions with directory changes, smtp, telnet, redis, memcached, http, tftp), interleaved at request/response granularity by the choice tape (systematically enumerated for a third of the thorough runs), with idle and reset sessions. Oracles: solo-run equivalence (every session's transcript and the events carrying its address equal those of the same script alone on a fresh server) and tag ownership (no client receives, and no event attributed to it contains, another session's tag).",
    ref="§3 C03", tech=TECH + "metamorphic solo-run equivalence + tag-ownership oracle over interleaved session histories",
    note="Granularity: one command per scheduler step; FTP transcripts compared as line multisets with host temp paths masked."),
+ "C02": dict(
+   text="Seeded exploration of frame histories into the simulated NIC consumed by the real Start() receive loop (which has no recover): field-boundary frames for Ethernet/IPv4/TCP (data offset, option layouts)/UDP/ICMP/ARP, random bytes, stray segments, SYN floods of up to 70,000 distinct 4-tuples inside and across the 30 s state-table reuse horizon, four ARP/route configurations (peer known / via gateway / gateway without ARP entry / nothing), clock advances and EINTR from epoll_wait. Oracles: the worker process survives (driver: exit status, banners, CPU budget) and a well-formed UDP probe sent after the history still yields its event with the exact payload.",
+   ref="§3 C02", tech=RAW + "process-level crash oracle by the watching driver + in-simulation liveness probe; EINTR fault; table configurations",
+   note="Kernel AF_PACKET delivery semantics (truncation, VLAN auxdata) are not simulated; do_arp is not settable so ARP frames are ignored by every reachable configuration."),
+ "C14": dict(
+   text="Seeded exploration: 1-4 scripted TCP peers (ISN boundary values and random, decoded/undecoded ports, 0-4000 bytes in 1-8 in-order segments of even and odd lengths, PSH placement, peers with ARP entry or behind the gateway, peers sharing an address) interleaved frame by frame by the choice tape into the simulated NIC; peers acknowledge what they receive. An independent decoder verifies every emitted frame (addressed back to the sender, IPv4 and TCP checksums, SYN-ACK acks ISN+1, every ACK equals ISN+1+bytes so far mod 2^32, FIN answered); the connection's event must carry the peer's addresses and a payload that is a prefix of the stream containing the first pushed segment; one peer is re-run alone and must see the same frames (relative sequence numbers).",
+   ref="§3 C14", tech=RAW + "independent frame decoder/checksum verifier as history invariant + metamorphic solo-peer equivalence",
+   note="Server ISN comes from the seeded global math/rand and is not steerable; retransmission, out-of-order and overlapping segments are outside the statement."),
+ "C20": dict(
+   text="Seeded exploration: 1-4 scanning sources each sending one or two bursts of 1-150 TCP SYN / UDP / ICMP probes with repeated ports, interleaved by the choice tape as frames into the simulated NIC; the fake clock drives the detector's 5 s timer (re-armed by every knock, so other sources starve it) and then runs ten simulated minutes. Oracle over all port-scan events: per source the union of listed ports equals the set probed, no pair is listed twice in an event or more often than the number of bursts containing it, a single burst is reported exactly once, sources are reported separately with the sensor as destination, nothing is reported again without new probes.",
+   ref="§3 C20", tech=RAW + "set/exactly-once oracle over the recorded port-scan event history on the fake clock",
+   note="Bursts are derived from the probes' actual simulated times (gap < 4.5 s same burst, > 11 s new burst, between: counts not judged); mixed-protocol bursts may yield one event or one per protocol family."),
 }
 NA = {
  "C17": "pure functions of a byte buffer (decoder methods, ipp decode/encode): no schedule, clock, fault or interleaving to simulate (DESIGN §4)",
